@@ -22,8 +22,11 @@ template <typename T>
     } else if constexpr (sizeof(T) == 8U) {
         return (etl::bit_cast<etl::uint64_t>(arg) >> 63U) != 0U;
     } else {
-        return arg < T(0) || (arg == T(0) && static_cast<double>(arg) == 0.0
-                                 && (etl::bit_cast<etl::uint64_t>(static_cast<double>(arg)) >> 63U) != 0U);
+        if (arg != arg or arg == T(0)) {
+            // comparisons cannot see the sign of a NaN or of a zero: the conversion to double keeps it
+            return (etl::bit_cast<etl::uint64_t>(static_cast<double>(arg)) >> 63U) != 0U;
+        }
+        return arg < T(0);
     }
 }
 
